@@ -19,6 +19,7 @@ import (
 	"reflect"
 	"runtime"
 	"sort"
+	"strings"
 	"sync"
 	"sync/atomic"
 	"testing"
@@ -47,6 +48,7 @@ type vCase struct {
 	Reps     int      `json:"reps,omitempty"`
 	Barrier  int      `json:"barrier,omitempty"`
 	Procs    int      `json:"procs,omitempty"`
+	Spin     int      `json:"spin,omitempty"` // stress: gate round trips made by every leaf
 }
 
 type vTrace struct {
@@ -89,6 +91,8 @@ type hWorld struct {
 	rtyp reflect.Type
 	open atomic.Int64 // started-but-not-ended targets (LoadBegin .. end)
 	arrived atomic.Int64
+	work    atomic.Int64
+	exec    atomic.Int64 // targets executing: loading or in their body, not inside EvaluateTargets
 }
 
 // rendezvous makes up to k free-running goroutines leave together (bounded spin), so that
@@ -121,11 +125,13 @@ func contains(xs []string, x string) bool {
 
 func (w *hWorld) LoadTarget(label string) (Target, error) {
 	w.open.Add(1)
+	w.exec.Add(1)
 	w.rec.Log("LoadBegin", "l", label)
 	w.s.Yield("h.load", label)
 	if _, ok := w.c.Cfg.Deps[label]; !ok || contains(w.c.Cfg.Unknown, label) {
 		e := hErr("unknown:" + label)
 		w.rec.Log("LoadEnd", "l", label, "err", string(e))
+		w.exec.Add(-1)
 		w.open.Add(-1)
 		return nil, e
 	}
@@ -142,6 +148,25 @@ func (t *hTarget) Evaluate(e Engine) error {
 		w.rendezvous(w.c.Barrier)
 	}
 	deps := w.c.Cfg.Deps[t.label]
+	if w.c.Mode == "stress" && w.c.Spin > 0 && len(deps) == 0 {
+		// gate round trips: EvaluateTargets without labels gives the slot up and takes
+		// one again. The counter is lowered before the slot is released and raised after
+		// one is held, so it never exceeds the number of slots in use.
+		peak := int64(0)
+		w.rec.Log("SpinBegin", "l", t.label)
+		for i := 0; i < w.c.Spin; i++ {
+			for j := 0; j < 10; j++ {
+				w.work.Add(1) // a little contended work between round trips
+			}
+			w.exec.Add(-1)
+			e.EvaluateTargets()
+			if n := w.exec.Add(1); n > peak {
+				peak = n
+			}
+		}
+		w.rec.Log("Spin", "l", t.label, "n", w.c.Spin, "peak", peak)
+	}
+	w.exec.Add(-1)
 	w.rec.Log("ETCall", "l", t.label, "deps", append([]string{}, deps...))
 	rs := e.EvaluateTargets(deps...)
 	results := make([]map[string]string, len(rs))
@@ -160,6 +185,7 @@ func (t *hTarget) Evaluate(e Engine) error {
 			failed = true
 		}
 	}
+	w.exec.Add(1)
 	w.rec.Log("ETReturn", "l", t.label, "results", results)
 	w.s.Yield("h.eval2", t.label)
 	var err error
@@ -170,6 +196,7 @@ func (t *hTarget) Evaluate(e Engine) error {
 		err = hErr("body:" + t.label)
 	}
 	w.rec.Log("EvalEnd", "l", t.label, "err", errTag(err))
+	w.exec.Add(-1)
 	w.open.Add(-1)
 	return err
 }
@@ -361,7 +388,20 @@ func runControlled(t *testing.T, c *vCase) (tr *vTrace) {
 				rec.Log("Hang", "kind", "livelock: not finished after 23000 fair scheduler steps")
 			} else if !mainDone.Load() || w.open.Load() != 0 {
 				deadlock = true
-				rec.Log("Deadlock", "main", mainDone.Load(), "open", w.open.Load())
+				// threads whose last scheduling point is the entry of the gate are parked in it
+				last := map[string]string{}
+				for _, st := range tr.Steps {
+					if st["ev"] == "Step" {
+						last[st["th"].(string)] = st["point"].(string)
+					}
+				}
+				atgate := 0
+				for _, pt := range last {
+					if pt == "gate.enter" {
+						atgate++
+					}
+				}
+				rec.Log("Deadlock", "main", mainDone.Load(), "open", w.open.Load(), "atgate", atgate)
 			}
 		})
 	}()
@@ -418,7 +458,12 @@ func runFree(t *testing.T, c *vCase) (tr *vTrace) {
 		}
 	}
 	if hang {
-		rec.Log("Hang", "dump", sched.AllStacks())
+		dump := sched.AllStacks()
+		capv := -1
+		if cv, ok := w.capacity(); ok {
+			capv = cv
+		}
+		rec.Log("Hang", "dump", dump, "atgate", strings.Count(dump, "runner.(*gate).enter("), "cap", capv)
 		tr.Events = rec.Events()
 		return tr
 	}
